@@ -32,8 +32,8 @@ UBDEF = ("the machine's catalogue of UB kinds is the definition of memory unsafe
          "optimiser-dependent manifestations of UB are not modelled")
 
 prop("C01", title="operation sequences behave like std Vec", equiv=["EquivElem.push_equiv", "EquivPop.pop_equiv", "EquivInsert.insert_equiv", "EquivRemove.remove_equiv", "EquivSwapRemove.swap_remove_equiv", "EquivElem.truncate_equiv", "EquivElem.clear_equiv", "EquivElem.set_len_equiv"], trusted=[HAND, EXTR, "std::vec::Vec as the oracle of the list-level spec (three-way run)"])
-prop("C02", title="exactly-once ownership", equiv=["EquivElem.push_equiv", "EquivPop.pop_equiv", "EquivInsert.insert_equiv", "EquivRemove.remove_equiv", "EquivSwapRemove.swap_remove_equiv", "EquivElem.truncate_equiv", "EquivElem.clear_equiv", "EquivElem.set_len_equiv"], trusted=[HAND, EXTR, UBDEF])
-prop("C03", title="allocator contract", equiv=["next_aligned_equiv", "make_layout_equiv", "max_align_equiv", "EquivGrow.grow_equiv"], trusted=[HAND, EXTR, UBDEF, "the GlobalAlloc contract as written in Machine.do_realloc/do_dealloc"])
+prop("C02", title="exactly-once ownership", equiv=["EquivElem.push_equiv", "EquivPop.pop_equiv", "EquivInsert.insert_equiv", "EquivRemove.remove_equiv", "EquivSwapRemove.swap_remove_equiv", "EquivElem.truncate_equiv", "EquivElem.clear_equiv", "EquivElem.set_len_equiv", "EquivDrop.drop_equiv"], trusted=[HAND, EXTR, UBDEF])
+prop("C03", title="allocator contract", equiv=["next_aligned_equiv", "make_layout_equiv", "max_align_equiv", "EquivGrow.grow_equiv", "EquivDrop.drop_equiv"], trusted=[HAND, EXTR, UBDEF, "the GlobalAlloc contract as written in Machine.do_realloc/do_dealloc"])
 prop("C04", title="panic safety", equiv=["EquivElem.truncate_equiv", "EquivElem.clear_equiv", "EquivElem.push_equiv", "EquivInsert.insert_equiv"], trusted=[HAND, EXTR, UBDEF])
 prop("C05", title="forget safety", trusted=[HAND, EXTR, UBDEF])
 prop("C06", title="never-allocated vector", equiv=["EquivCap.len_equiv", "EquivCap.capacity_equiv", "EquivCap.alignment_equiv", "EquivElem.data_equiv", "EquivElem.as_ptr_equiv", "EquivElem.as_mut_ptr_equiv"], trusted=[HAND, EXTR, UBDEF], profiles="dr")
@@ -47,7 +47,7 @@ prop("C12", title="clones deep and independent", trusted=[HAND, EXTR, UBDEF])
 prop("C13", title="handle is one pointer wide with a niche", impl="sizes",
      trusted=["coq/Layout.v: rustc's repr(Rust) struct layout rules are MODELLED (40 lines), not verified; "
               "rustc is the observed oracle (size_of/align_of table printed by the harness)"])
-prop("C14", title="raw-pointer round trip", equiv=["next_aligned_equiv", "EquivElem.data_equiv", "EquivElem.as_mut_ptr_equiv"], trusted=[HAND, EXTR, UBDEF])
+prop("C14", title="raw-pointer round trip", equiv=["next_aligned_equiv", "EquivElem.data_equiv", "EquivElem.as_mut_ptr_equiv", "EquivRaw.into_raw_parts_equiv", "EquivRaw.from_raw_part_equiv", "EquivRaw.from_raw_parts_equiv"], trusted=[HAND, EXTR, UBDEF])
 prop("C15", title="slice semantics of comparisons", trusted=[HAND, EXTR, "the delegation shapes are read from syntax (rs2v deleg_shape); core's slice impls are trusted"])
 prop("C16", title="compile-time rules", impl="rustc",
      trusted=["rustc is the observed oracle: the corpus of must-not-compile / must-compile programs is compiled against the current crate",
